@@ -66,7 +66,7 @@ Lemma comment_closed_form : forall t l a cb b,
   = Some (trim_text t l LStart (RTag true MNone) a ++ trim_text t l (LTag true MNone) REnd (drop_final_nl b)).
 Proof.
   intros t l a cb b Ha Hcb Hb. set (c := cfg_default t l false [10]).
-  pose proof (skel_cfg_default t l) as SC. fold c in SC.
+  pose proof (skel_cfg_default t l false [10]) as SC. fold c in SC.
   assert (H13 : forall s, forallb (txt_of 123) s = true -> forallb (fun x => negb (x =? 13)) s = true).
   { induction s as [|x r IH]; intros H; [reflexivity|]. cbn [forallb] in *. apply andb_true_iff in H as [H1 H2].
     rewrite (txt_of_13 _ _ H1). cbn. auto. }
